@@ -28,25 +28,25 @@ CLAIMED = {
     "C13": ("proof", "TimeZoneRef::check_inputs / new: Ok exactly for well-formed zones and each error names a violated clause (zone_verdict), incl. saturating arithmetic at i64/i32 extremes; "
             "LocalTimeType::new / TzAsciiStr::new accept exactly 3-7 characters of [A-Za-z0-9+-] and refuse i32::MIN; the owned constructor decides identically (proved).", "5/C13, S.1",
             "Rule evaluator delegated to C04 (so the trailing-rule clause inherits F2's carve-out). The owned TimeZone::new is under Verus contract too: its verdict is the borrowed check's verdict on a zone viewing the same data. "),
-    "C14": ("proof", "Representation invariant secs(fields) = unix_time + ut_offset for every constructor under contract (new, from_timespec(_and_local), from_total_nanoseconds(_and_local), project); projection keeps instant and nanoseconds; "
+    "C14": ("proof", "Representation invariant secs(fields) = unix_time + ut_offset for every constructor under contract (new, from_timespec(_and_local), from_total_nanoseconds(_and_local), project) and for every date-time the local-time search produces (find_date_time, DateTime::find / find_n); projection keeps instant and nanoseconds; "
             "new refuses exactly invalid fields / out-of-range instants. PartialEq/PartialOrd by a complete Kani harness (thorough).", "5/C14",
-            "Values built inside the local-time search (datetime/find.rs) are NOT covered (outside Verus's subset). Table lookup delegated to C03. "),
+            "Values built inside the local-time search ARE covered: the real find_date_time (extraction rules R8-R12) and DateTime::find are under contract: every date-time of every result pushed satisfies the invariant. Table lookup delegated to C03. "),
     "C16": ("proof", "total_nanoseconds_to_timespec is the floor split (s*1e9+ns = n, 0 <= ns < 1e9, refusal iff seconds leave i64), nanoseconds_since_unix_epoch the exact recombination, both round trips and "
             "from_total_nanoseconds = from_timespec of the pair as verified compositions.", "5/C16", ""),
 }
 
 CLAIMED.update({
     "C07": ("proof", "Every function under contract (the whole extracted file: ~105 real functions of utils/const_fns.rs, datetime/mod.rs, timezone/mod.rs, timezone/rule.rs) is verified by Verus in exec mode, where each + - * / % cast, index, slice, unreachable!() and loop generates an obligation: no panic, no overflow with overflow checks on, no out-of-bounds, termination, for all inputs admitted by preconditions that are `true` or constructor-established type invariants. "
-            "NOT covered and excluded from the claim: both parsers, datetime/find.rs, Display/format_date_time, TimeZone/TimeZoneSettings, TzAsciiStr::as_bytes/as_str, allocation bounds, builds without overflow checks.", "5/C07",
+            "The local-time search (find_date_time with its lifted closure, DateTime::find / find_n, the result lists' push / new / data / count / is_exhaustive) is included. NOT covered and excluded from the claim: both parsers, Display/format_date_time, TimeZone::{utc, fixed, from_tz_data, local, from_posix_tz} and TimeZoneSettings, TzAsciiStr::as_bytes/as_str, unique/earliest/latest of the result lists, allocation bounds, builds without overflow checks.", "5/C07",
             "This is a claim about the named function set only (coverage.functions_under_contract); the uncovered public operations are listed in coverage.extraction.not_under_contract. "),
     "C11": ("proof", "AlternateTime::new returns Ok exactly when both offsets are in (-25h, 26h), both times within +-7d and the three start/end relations never change sign over ALL integer years; each error kind names the first violated condition. Complete proof for all 9 notation pairs down to the calendar axioms: year classes and 21 witness years for Jn / n and mixed pairs; for Mm.w.d x Mm.w.d the finite core (all month / week / weekday / year-class combinations) is decided by computation inside Verus (assert by compute) and linked to the calendar by lemmas; the real check functions are proved equal to the decision procedures.", "5/C11, S.1",
             "Additionally trusted for this property: Verus's assert-by-compute interpreter (lemma_mm_compute_*). "),
 })
 
 CLAIMED.update({
-    "C17": ("other", "BOUNDED stand-in (buffer length <= 8), not a proof: Kani inductive step on the real push / data / count / is_exhaustive with arbitrary stale buffer contents + a structural check that both entry points are the plain delegation to one search generic in its list (parametricity meta-argument, stated not machine-checked) + a bounded public-API comparison of find_n against find for buffer lengths 0..=k+2.", "5/C17",
-            "Bounded in buffer length; unique/earliest/latest are compared only by the bounded concrete probe. Trusted: Kani 0.68 / CBMC 6.11, the parametricity argument. ",
-            "Kani/CBMC bounded inductive step on the real data-structure operations + structural shape check (bounded stand-in for a contract proof)"),
+    "C17": ("proof", "Unbounded proof (Verus) of the data-structure half for every buffer length: the real FoundDateTimeListRefMut::{new, push, data, count, is_exhaustive} and the allocating list's push against an abstract view; lemma: a fresh list over n slots after k pushes holds exactly the first min(n, k) results in order, counts k, is exhaustive iff n >= k and leaves every other slot untouched; the real DateTime::find_n is proved to return exactly that for the sequence of results pushed by the real list-generic find_date_time (whose contract is stated over the list trait's abstract view and therefore holds for both list types), DateTime::find to return that whole sequence. "
+            "That the sequence is the same for both list types rests on parametricity (find_date_time can only call push; shape checked structurally on every run) - a stated meta-argument. unique/earliest/latest are only compared by a bounded concrete probe.", "S.13",
+            "Residual assumptions: parametricity meta-argument; extraction rules R8-R12 (lambda lifting of the get_time closure, enumerate/zip loops desugared to while loops, three iterator expressions abstracted behind Kani-proved contracts, push arguments let-bound). unique/earliest/latest: bounded probe only. "),
 })
 
 BOUNDED_SEARCH = ("other", "BOUNDED stand-in, not a proof (the search function is outside Verus's subset). Thorough tier: Kani/CBMC on the REAL find_date_time with a recorder list, for every table of 1..=3 transitions with arbitrary i64 times / type indices / i32 offsets (no leap seconds, or <= 2 transitions with one leap-second record of either sign; trailing rule none or fixed) and every searched field tuple: result set sound and complete against the forward lookup, no duplicates, gap entries exactly at forward transitions with the right two types, ascending order; callees replaced by their Verus-proved contracts. Every tier: bounded concrete comparison of DateTime::find with an independent oracle of the result set through the public API (table zones with/without leap seconds and fixed rule; rule-only DST zones).", "S.6",
